@@ -677,7 +677,7 @@ def pending_rule(P, R):
     simulation that stops early never carries them out; read_input, which every simulation starts with, must discard them on every
     path, otherwise a later simulation or call deletes / copies entries it does not name ("DELETE removes exactly the named entries")."""
     RULE = "C14.pending"
-    R.rule(RULE, "read_input discards the pending COPY / DELETE / *_MIX requests of an earlier simulation on every path", minimum=19)
+    R.rule(RULE, "read_input discards the pending COPY / DELETE / *_MIX / DUMP / RUN_CELLS requests of an earlier simulation on every path", minimum=21)
     rec = P.records.get("Phreeqc")
     f = P.one("Phreeqc::read_input")
     dm = P.one("Phreeqc::do_mixes")
@@ -688,8 +688,10 @@ def pending_rule(P, R):
             need.append(fl["name"])
         elif "cxxMix" in fl["type"] and fl["type"].startswith("std::map<int") and fl["name"] in mixmaps:
             need.append(fl["name"])
-    if len(need) < 19:
-        R.anchor_missing(RULE, "only %d request members found (11 copier, delete_info, 7 mix maps expected)" % len(need))
+        elif fl["type"] in ("dumper", "runner"):
+            need.append(fl["name"])         # DUMP and RUN_CELLS requests
+    if len(need) < 21:
+        R.anchor_missing(RULE, "only %d request members found (11 copier, delete_info, 7 mix maps, dump_info, run_info expected)" % len(need))
         return
     cleared = {}
 
@@ -714,10 +716,11 @@ def pending_rule(P, R):
                 a = T.strip_casts(c[4][0])
                 if T.is_node(a) and a[0] == "Un" and a[2] == "&" and T.is_node(a[3]) and a[3][0] == "Member":
                     cleared[a[3][2].split("::")[-1]] = c[1]
-            elif nm == "clear" or (nm == "SetAll" and c[4] and T.lit_value(T.strip_casts(c[4][0])) == 0):
-                o = T.strip_casts(T.call_obj(c))
-                if T.is_node(o) and o[0] == "Member":
-                    cleared[o[2].split("::")[-1]] = c[1]
+            elif nm == "clear" or (nm in ("SetAll", "Set_run_cells", "Set_defined") and c[4] and T.lit_value(T.strip_casts(c[4][0])) == 0):
+                o = T.call_obj(c)
+                for y in (T.walk(o) if T.is_node(o) else ()):          # run_info.Get_cells().Set_defined(false)
+                    if y[0] == "Member" and y[2].startswith("Phreeqc::"):
+                        cleared[y[2].split("::")[-1]] = c[1]
     collect(f, 0)
     for m in need:
         if m in cleared:
